@@ -8,17 +8,53 @@
 (* Verdict entries, one per missing item:                                    *)
 (*   C08.read / C08.write / C08.write_undef (items the SDM leaves undefined: *)
 (*   "can modify", separate class).  Degenerate core instances are skipped.  *)
-EXTENDS X86RW, Json, IOUtils
+(* Core records also carry the reported memory cells themselves: rcells /    *)
+(* wcells = << [a |-> address tree, w |-> width] ... >>, and sd, ns, eip.    *)
+(* In the probe states GenState(i, sd, 1..ns) every byte X86Sem!Step writes  *)
+(* must lie in a reported written cell (C08.write_addr), and every byte of   *)
+(* an architectural cell whose change changes the result of the step must    *)
+(* lie in a reported read cell (C08.read_addr); reported addresses are       *)
+(* evaluated with IR!Eval in the pre-state.  item = architectural cell name. *)
+EXTENDS X86RW, X86SpaceLib, Json, IOUtils
 Recs == JsonDeserialize(IOEnv.TRACE)
 ToSet(sq) == {sq[j] : j \in 1..Len(sq)}
+\* ---- concrete addresses of the reported cells ---------------------------------------------------
+CellsOK(cs) == \A j \in 1..Len(cs) : Loose(cs[j].a) /\ cs[j].a.k # "aff" /\ cs[j].w >= 8
+Conc(cs, s) == LET extra == UNION {Ids(cs[j].a) : j \in 1..Len(cs)} \ Modelled
+                   env == EnvOf(s, extra) IN
+               {<<"", Norm(Eval(cs[j].a, env), 32), cs[j].w \div 8>> : j \in 1..Len(cs)}
+Covered(a, cc) == \E c \in cc : InCell(c, a)
+NameAt(i, s, a) == LET cs == {c \in Cells(i, s) : InCell(c, a)} IN IF cs = {} THEN "mem[?]" ELSE (CHOOSE c \in cs : TRUE)[1]
+AddrVerdict(rec) ==
+   LET ins == rec.i
+       KS == 1..rec.ns
+       S == TLCEval([k \in KS |-> [GenState(ins, rec.sd, k) EXCEPT !.eip = rec.eip]])
+       P == TLCEval([k \in KS |-> Step(ins, S[k])])
+       live == {k \in KS : P[k].fault = ""}
+       RCs == TLCEval([k \in KS |-> Conc(rec.rcells, S[k])])
+       WCs == TLCEval([k \in KS |-> Conc(rec.wcells, S[k])])
+       \* bytes written by the processor outside every reported written cell
+       wmiss == UNION {{NameAt(ins, S[k], a) : a \in {a \in WrAddrs(P[k].wr) : ~Covered(a, WCs[k])}} : k \in live}
+       \* bytes of an architectural cell on which the result depends (flip all bits / flip bit 0) outside every reported read cell
+       dep(k, a) == LET cur == Load(S[k], a, 8)[1] IN
+                    \E new \in {255 - cur, IF cur % 2 = 0 THEN cur + 1 ELSE cur - 1} :
+                       Differ(P[k], Step(ins, [S[k] EXCEPT !.over = S[k].over \o <<<<a, new>>>>]), 0, 0)
+       bytesOf(c) == {Add(c[2], Const(j), 32) : j \in 0..(c[3] - 1)}
+       rmiss == UNION {UNION {{c[1] : a \in {a \in bytesOf(c) : ~Covered(a, RCs[k]) /\ dep(k, a)}} : c \in Cells(ins, S[k])} : k \in live}
+       RECURSIVE list(_,_)
+       list(c, xs) == IF xs = {} THEN <<>> ELSE LET x == CHOOSE x \in xs : TRUE IN <<[clause |-> c, item |-> x]>> \o list(c, xs \ {x})
+   IN IF rec.ns = 0 THEN <<>>
+      ELSE IF ~CellsOK(rec.rcells) \/ ~CellsOK(rec.wcells) THEN <<[clause |-> "skip.illtyped_address"]>>
+      ELSE list("C08.write_addr", wmiss) \o list("C08.read_addr", rmiss)
 Verdict(rec) ==
    LET core == rec.kind = "core"
        d == IF core THEN RW(rec.i) ELSE Ext[rec.x]
-       R == ToSet(rec.robs)  W == ToSet(rec.wobs)
+       Robs == ToSet(rec.robs)  Wobs == ToSet(rec.wobs)
        RECURSIVE list(_,_)
        list(c, xs) == IF xs = {} THEN <<>> ELSE LET x == CHOOSE x \in xs : TRUE IN <<[clause |-> c, item |-> x]>> \o list(c, xs \ {x})
    IN IF core /\ Degenerate(rec.i) THEN <<[clause |-> "skip.degenerate"]>>
-      ELSE list("C08.read", d.r \ R) \o list("C08.write", d.w \ W) \o list("C08.write_undef", d.wu \ W)
+      ELSE list("C08.read", d.r \ Robs) \o list("C08.write", d.w \ Wobs) \o list("C08.write_undef", d.wu \ Wobs)
+           \o (IF core THEN AddrVerdict(rec) ELSE <<>>)
 VARIABLE i
 Init == i = 0
 Next == \/ /\ i < Len(Recs) /\ i' = i + 1
